@@ -480,9 +480,9 @@ var requiredClasses = func() []string {
 	req := []string{"mode:get", "mode:pipeline", "mode:inconsistent", "asserted", "unasserted:all-hops-skipverify", "effective",
 		"changed-but-still-decodes", "result:error", "result:good-data", "hops:server-skip+client-verify", "http:server-side-conversion",
 		"repair:demanded", "repair:replaced", "concurrent-first-call", "digest:" + digestWeakPrefix, "digest:" + digestWeakSuffix,
-		"consumer:" + cAssemble, "consumer:" + cReadSeeker, "consumer:" + cUnTarIndex,
-		"pipeline:" + cAssemble + ":poisoned-fetch", "pipeline:" + cReadSeeker + ":poisoned-fetch", "pipeline:" + cUnTarIndex + ":poisoned-fetch",
-		"inconsistent:" + cAssemble, "inconsistent:" + cReadSeeker, "inconsistent:" + cUnTarIndex,
+		"consumer:" + cAssemble, "consumer:" + cReadSeeker, "consumer:" + cUnTarIndex, "consumer:" + cSparse,
+		"pipeline:" + cAssemble + ":poisoned-fetch", "pipeline:" + cReadSeeker + ":poisoned-fetch", "pipeline:" + cUnTarIndex + ":poisoned-fetch", "pipeline:" + cSparse + ":poisoned-fetch",
+		"inconsistent:" + cAssemble, "inconsistent:" + cReadSeeker, "inconsistent:" + cUnTarIndex, "inconsistent:" + cSparse,
 		"inconsistent:index-claims-more", "inconsistent:index-claims-less"}
 	for _, b := range quickBackends {
 		req = append(req, "backend:"+b+":compressed")
